@@ -248,7 +248,32 @@ func loadOrGenKeys(dir, enc, sig, password, tag string) (keyset, error) {
 	return ks, nil
 }
 
+type cryptoPair struct {
+	w, r config.CryptoConfig
+}
+
+var cryptoCache = map[string]cryptoPair{}
+var cryptoMu sync.Mutex
+
+// parsing identities is expensive (scrypt): once per process and key set
 func parseCrypto(cfg Config, ks keyset) (w config.CryptoConfig, r config.CryptoConfig, err error) {
+	key := fmt.Sprintf("%s|%s|%s|%x|%x", cfg.Enc, cfg.Sig, cfg.Password, ks.encPub, ks.sigPub)
+	cryptoMu.Lock()
+	if c, ok := cryptoCache[key]; ok {
+		cryptoMu.Unlock()
+		return c.w, c.r, nil
+	}
+	cryptoMu.Unlock()
+	w, r, err = parseCryptoUncached(cfg, ks)
+	if err == nil {
+		cryptoMu.Lock()
+		cryptoCache[key] = cryptoPair{w, r}
+		cryptoMu.Unlock()
+	}
+	return
+}
+
+func parseCryptoUncached(cfg Config, ks keyset) (w config.CryptoConfig, r config.CryptoConfig, err error) {
 	var encRecipient, encIdentity, sigRecipient, sigIdentity interface{}
 	if cfg.Enc != "" {
 		encRecipient, err = keys.ParseRecipient(cfg.Enc, ks.encPub)
